@@ -42,7 +42,10 @@ const (
 )
 
 // Kafka topic names may contain dots: schema-qualified look-alikes of plain names are topics of their own
-var c37Topics = []string{"orders", "payments", "secret", "audit_log", "ev", "pii.orders", "audit.log", "a.b.c", "public.orders"}
+var c37Topics = []string{"orders", "payments", "secret", "audit_log", "ev", "pii.orders", "audit.log", "a.b.c", "public.orders",
+	"tenant-1", "tenant-2", "events.2023", "events.2024"} // siblings that differ only in a numeric segment
+
+var c37Sibling = map[string]string{"tenant-1": "tenant-2", "tenant-2": "tenant-1", "events.2023": "events.2024", "events.2024": "events.2023"}
 
 // ---------------------------------------------------------------- reference ACL
 
@@ -352,7 +355,8 @@ func c37Pad(t *rapid.T, before string, target int, style int) string {
 func c37GenQuery(t *rapid.T) c37Gen {
 	topic := func(label string) string {
 		return rapid.SampledFrom([]string{"orders", "payments", "secret", "audit_log", "ev", "orders", "secret", "nosuch", "Orders", "SECRET",
-			"pii.orders", "audit.log", "a.b.c", "public.orders", "pii.orders", "PII.Orders", ".orders", "orders.", "x.secret", "secret.x", "public.secret"}).Draw(t, label)
+			"pii.orders", "audit.log", "a.b.c", "public.orders", "pii.orders", "PII.Orders", ".orders", "orders.", "x.secret", "secret.x", "public.secret",
+			"tenant-1", "tenant-2", "events.2023", "events.2024", "tenant-1", "tenant-2", "tenant-3"}).Draw(t, label)
 	}
 	// where (relative to byte 512 of the trimmed text) the interesting token starts
 	target := 0
@@ -492,6 +496,24 @@ func c37GenQuery(t *rapid.T) c37Gen {
 		g.Text = rapid.SampledFrom([]string{"select * from information_schema.tables", "select * from pg_catalog.pg_tables",
 			"select * from orders information_schema.tables last 1h", "select * from information_schema.columns"}).Draw(t, "catalog")
 	}
+	// statement terminators in the middle and at the end
+	switch rapid.IntRange(0, 9).Draw(t, "semi") {
+	case 0, 1: // ';' at a blank inside the statement
+		var blanks []int
+		for i := 0; i < len(g.Text); i++ {
+			if g.Text[i] == ' ' {
+				blanks = append(blanks, i)
+			}
+		}
+		if len(blanks) > 0 {
+			at := rapid.SampledFrom(blanks).Draw(t, "semiAt")
+			g.Text = g.Text[:at] + rapid.SampledFrom([]string{" ; ", "; ", " ;", ";", " ;\n"}).Draw(t, "semiForm") + g.Text[at+1:]
+			g.Kind += "+semicolon-inside"
+		}
+	case 2:
+		trail = rapid.SampledFrom([]string{";\n", "; ", ";;", " ; ;", ";\t\n"}).Draw(t, "semiTrail")
+		g.Kind += "+semicolon-trail"
+	}
 	g.Text = lead + g.Text + trail
 	return g
 }
@@ -533,8 +555,9 @@ func c37CommentPair(t *rapid.T) (string, string) {
 		}
 	}
 	sp := rapid.SampledFrom([]string{" ", " ", "  ", "\t"}).Draw(t, "csp")
+	marker := rapid.SampledFrom([]string{"--", "--", "--", ";", ";", "/*", "#", "-- ;"}).Draw(t, "marker")
 	render := func(n int) string {
-		s := strings.Join(toks[:ci], sp) + sp + "--"
+		s := strings.Join(toks[:ci], sp) + sp + marker
 		if n > ci {
 			s += sp + strings.Join(toks[ci:n], sp)
 		}
@@ -765,8 +788,8 @@ func c37Judge(up *c37Upstream, allow, deny []string, q string, o c37Outcome, st 
 }
 
 var (
-	c37AllowPool = []string{"orders", "pay*", "ev", "audit*", "*", "o*", "payments", "orders", "pii.*", "pii.orders", "a.*", "audit.log", "public.*"}
-	c37DenyPool  = []string{"secret", "audit*", "pay*", "payments", "s*", "orders", "pii.*", "audit.log", "a.b.c", "pii.orders", "public.secret"}
+	c37AllowPool = []string{"orders", "pay*", "ev", "audit*", "*", "o*", "payments", "orders", "pii.*", "pii.orders", "a.*", "audit.log", "public.*", "tenant-1", "events.2023", "tenant-*", "", " "}
+	c37DenyPool  = []string{"secret", "audit*", "pay*", "payments", "s*", "orders", "pii.*", "audit.log", "a.b.c", "pii.orders", "public.secret", "tenant-2", "events.2024", "tenant-2", "", "\t"}
 )
 
 func TestVF_C37_Forward(t *testing.T) {
@@ -797,6 +820,24 @@ func TestVF_C37_Forward(t *testing.T) {
 		st.Eval()
 		allow := rapid.SliceOfNDistinct(rapid.SampledFrom(c37AllowPool), 0, 2, rapid.ID[string]).Draw(t, "allow")
 		deny := rapid.SliceOfNDistinct(rapid.SampledFrom(c37DenyPool), 0, 2, rapid.ID[string]).Draw(t, "deny")
+		if rapid.IntRange(0, 9).Draw(t, "blankACL") == 0 {
+			// lists that are non-empty but hold only blank entries (templated config that rendered empty):
+			// a blank pattern names no topic, so a non-empty allow list of blanks allows nothing
+			allow = rapid.SampledFrom([][]string{{""}, {" "}, {"", "\t"}, {}}).Draw(t, "blankAllow")
+			deny = rapid.SampledFrom([][]string{{}, {}, {""}, {" ", ""}}).Draw(t, "blankDeny")
+			st.Class("acl:blank-only-lists")
+		}
+		siblingACL := rapid.IntRange(0, 7).Draw(t, "siblingACL") == 0
+		if siblingACL {
+			// two topics that differ only in a numeric segment get different verdicts
+			one := rapid.SampledFrom([]string{"tenant-1", "tenant-2", "events.2023", "events.2024"}).Draw(t, "sibOne")
+			if rapid.Bool().Draw(t, "sibDeny") {
+				allow, deny = nil, []string{one}
+			} else {
+				allow, deny = []string{one, "orders"}, nil
+			}
+			st.Class("acl:numeric-siblings")
+		}
 		if len(allow) == 0 && len(deny) == 0 && rapid.IntRange(0, 3).Draw(t, "keepOpen") != 0 {
 			deny = []string{"secret"}
 		}
@@ -813,8 +854,18 @@ func TestVF_C37_Forward(t *testing.T) {
 		var kinds []string
 		for i := 0; i < n; i++ {
 			var g c37Gen
-			mode := rapid.SampledFrom([]int{0, 1, 2, 2, 3, 4, 5, 2, 6, 6}).Draw(t, "qmode")
+			mode := rapid.SampledFrom([]int{0, 1, 2, 2, 3, 4, 5, 2, 6, 6, 7}).Draw(t, "qmode")
 			switch {
+			case mode == 7 || (siblingACL && i == 0): // one statement shape on two sibling topics (tenant-1 / tenant-2), back to back
+				pair := rapid.SampledFrom([][2]string{{"tenant-1", "tenant-2"}, {"tenant-2", "tenant-1"}, {"events.2023", "events.2024"}, {"events.2024", "events.2023"}}).Draw(t, "sibPair")
+				shape := rapid.SampledFrom([]string{"select * from %s last 1h", "SELECT _key FROM %s LAST 1h LIMIT 10", "select * from orders a join %s b within 10m last 1h",
+					"select * from %s a left join orders b on a._key = b._key within 10m last 1h limit 5", "describe %s", "show partitions from %s", "explain select * from %s last 24h",
+					"select * from %s where _partition = 0 and _offset >= 1 limit 3 scan full"}).Draw(t, "sibShape")
+				for _, tp := range pair {
+					queries = append(queries, strings.Replace(shape, "%s", tp, 1))
+					kinds = append(kinds, "sibling-pair")
+				}
+				continue
 			case mode == 6: // same tokens, "--" line comment, line break at two different places (decision cache collapses white space)
 				a, b := c37CommentPair(t)
 				for _, x := range []string{a, b} {
@@ -854,6 +905,9 @@ func TestVF_C37_Forward(t *testing.T) {
 					break
 				}
 				other := rapid.SampledFrom(c37Topics).Draw(t, "other")
+				if sib, ok := c37Sibling[lp[at:at+tl]]; ok && rapid.IntRange(0, 3).Draw(t, "sibling") != 0 {
+					other = sib
+				}
 				g = c37Gen{Text: prev[:at] + other + prev[at+tl:], Kind: "swap-last-topic"}
 			default:
 				g = c37GenQuery(t)
